@@ -21,6 +21,8 @@ package main
 import (
 	"fmt"
 	"go/token"
+	"sort"
+	"strings"
 
 	"golang.org/x/tools/go/ssa"
 )
@@ -167,7 +169,8 @@ func checkC05(ctx *Ctx, r *Report, tier string) {
 	if cf := ctx.ssaFunc("render", "verifCtlKernelNoDegenerate"); cf != nil {
 		degenerateGuard(ctx, r, cf, "T6", "Triangle3")
 	}
-	r.floor("T6", 1)
+	degenerateTest(ctx, r, "T6", "Triangle3", 3)
+	r.floor("T6", 2)
 	r.expectControl("T6", "verifCtlKernelNoDegenerate")
 	kf, err := analyseKernel(ctx, kfn, 3, "mcInterpolate")
 	if err != nil {
@@ -434,6 +437,93 @@ func verifyMCTables(r *Report, tb *mcTables, g *mcGeom, prefix string, kf *kerne
 			}
 		}
 	}
+}
+
+// degenerateTest decides what the primitive's Degenerate method itself tests: with the
+// vertex comparison (Equals) kept opaque, the result must be true exactly when some pair of
+// vertices compares equal, and all n(n-1)/2 pairs must be compared (a filter that forgets a
+// pair lets primitives with two identical vertices through).
+func degenerateTest(ctx *Ctx, r *Report, rule, recv string, n int) {
+	fn := ctx.ssaFunc("sdf", "(*"+recv+").Degenerate")
+	if fn == nil {
+		fn = ctx.ssaFunc("sdf", "("+recv+").Degenerate")
+	}
+	key := recv + ".Degenerate|compares-every-pair-of-vertices"
+	if fn == nil {
+		r.undecided(rule, key, 0, "method not found")
+		return
+	}
+	ev := newEval(ctx, "Equals")
+	res, _ := ev.evalRoot(fn)
+	t, _ := res.(*Term)
+	if t == nil || ev.Exceeded {
+		r.undecided(rule, key, fn.Pos(), "result is not a closed form")
+		return
+	}
+	// the opaque comparisons and the vertex pair each one looks at
+	eqs := findSub(t, func(x *Term) bool { return x.Op == "call" && strings.HasSuffix(x.S, ".Equals") })
+	pairOf := map[string][2]int{}
+	vertexIdx := func(a *Term) int {
+		// agg(t[i].X, t[i].Y, ...) or agg(a[i].X, ...)
+		k := a.Key()
+		for i := 0; i < n; i++ {
+			if strings.Contains(k, fmt.Sprintf("[%d].X", i)) && !strings.Contains(k, fmt.Sprintf("[%d].X", (i+1)%n)) {
+				return i
+			}
+		}
+		return -1
+	}
+	pairs := map[[2]int]bool{}
+	detail := ""
+	ok := true
+	for _, e := range eqs {
+		if len(e.Args) < 2 {
+			continue
+		}
+		i, j := vertexIdx(e.Args[0]), vertexIdx(e.Args[1])
+		if i < 0 || j < 0 || i == j {
+			ok = false
+			detail += " comparison of " + shortKey(e.Key(), 80) + " is not between two vertices;"
+			continue
+		}
+		if i > j {
+			i, j = j, i
+		}
+		pairs[[2]int{i, j}] = true
+		pairOf[e.Key()] = [2]int{i, j}
+	}
+	want := n * (n - 1) / 2
+	if len(pairs) != want {
+		ok = false
+		detail += fmt.Sprintf(" %d of %d vertex pairs compared: %v;", len(pairs), want, pairs)
+	}
+	// truth table: true iff some compared pair is equal
+	if ok {
+		keys := make([]string, 0, len(pairOf))
+		for k := range pairOf {
+			keys = append(keys, k)
+		}
+		sort.Strings(keys)
+		for m := 0; m < 1<<uint(len(keys)); m++ {
+			sub := map[string]*Term{}
+			any := false
+			for b, k := range keys {
+				if m>>uint(b)&1 == 1 {
+					sub[k] = K(1)
+					any = true
+				} else {
+					sub[k] = K(0)
+				}
+			}
+			g := substKeys(t, sub)
+			if !g.IsConst() || (g.C.Sign() != 0) != any {
+				ok = false
+				detail += fmt.Sprintf(" with equal pairs mask %b the result is %s;", m, shortKey(g.Key(), 40))
+				break
+			}
+		}
+	}
+	r.check(rule, key, fn.Pos(), ok, fmt.Sprintf("Degenerate ⇔ some two of the %d vertices coincide (within the tolerance);%s", n, detail))
 }
 
 // degenerateGuard: every append to the result slice of primitives in fn is
